@@ -197,3 +197,47 @@ def ctr_icb_rows(check, repo):
     check.ob("K-pw", "K-pw|ctr.initial_block", not wrong, mod.path, fn.lineno,
              extracted=("%d of %d rows differ: " % (len(wrong), len(jobs)) + "; ".join(wrong[:3])) if wrong else "%d (width, byte order, initial value) rows: the first counter block is prefix || value on counter_len bytes || suffix" % len(jobs),
              expected="SP 800-38A B.2: the counter field holds initial_value in the declared byte order, zero-padded to its width on the most significant side")
+
+
+def poly1305_keypair_rows(check, repo, rule="K-pw"):
+    """RFC 8439 2.6: the one-time Poly1305 key is the first 32 bytes of ChaCha20 block 0 under the 96-bit nonce; a 64-bit
+    nonce is extended with 32 zero bits in FRONT (00000000 || nonce).  _derive_Poly1305_key_pair is interpreted with the
+    cipher constructor recorded: the nonce that reaches ChaCha20, the split of the 32 bytes into r and s, the nonce
+    reported back, and the refusal of other key and nonce lengths."""
+    from ..absint import Interp
+    from ..absstate import State
+    CH = "Crypto.Cipher.ChaCha20"
+    mod = repo.module(CH)
+    fn = repo.func(mod, "_derive_Poly1305_key_pair")
+    wrong = []
+    key = bytes(range(0x40, 0x60))
+    for nl in (8, 12, None, 0, 7, 9, 11, 13, 16, 24):
+        nonce = None if nl is None else bytes(0x90 + j for j in range(nl))
+        seen = []
+
+        def m_new(i, a, kw, st, node, seen=seen):
+            seen.append((kw.get("key"), kw.get("nonce")))
+            return i.new_obj(st, label="chacha")
+        it = Interp(repo, max_depth=2, extra_models={CH + ".new": m_new, "Crypto.Random.get_random_bytes": lambda i, a, kw, st, node: bytes(0xE0 + j for j in range(a[0])) if a and isinstance(a[0], int) else None},
+                    method_models={"encrypt": lambda i, base, a, kw, st, node: bytes(range(1, 33)) if a and a[0] == bytes(32) else None})
+        res = it.run(mod, fn, {"key": key, "nonce": nonce})
+        rets = res.returns()
+        if nl in (8, 12, None):
+            rnd = bytes(0xE0 + j for j in range(12))
+            want_n = (b"\x00" * 4 + nonce) if nl == 8 else (nonce if nl == 12 else rnd)
+            want = (bytes(range(1, 17)), bytes(range(17, 33)), nonce if nl is not None else rnd)
+            got = tuple(rets[0].value) if len(rets) == 1 and not res.raises() and isinstance(rets[0].value, (tuple, list)) else None
+            if got is None or tuple(bytes(x) if isinstance(x, (bytes, bytearray)) else x for x in got) != want or len(seen) != 1 or seen[0] != (key, want_n):
+                wrong.append("%s nonce: ChaCha20 is set up with nonce %s (expected %s), result %s" % (
+                    "random" if nl is None else "%d-byte" % nl, seen[0][1].hex() if seen and isinstance(seen[0][1], (bytes, bytearray)) else seen, want_n.hex(),
+                    "as specified" if got is not None and tuple(bytes(x) if isinstance(x, (bytes, bytearray)) else x for x in got) == want else got))
+        elif rets or set(res.raise_classes()) != {"ValueError"}:
+            wrong.append("%d-byte nonce: %s" % (nl, "accepted" if rets else "raises %s" % res.raise_classes()))
+    for kl in (16, 31, 33):
+        it = Interp(repo, max_depth=2)
+        res = it.run(mod, fn, {"key": bytes(kl), "nonce": bytes(12)})
+        if res.returns() or set(res.raise_classes()) != {"ValueError"}:
+            wrong.append("%d-byte key: not refused with ValueError" % kl)
+    check.ob(rule, rule + "|poly1305.chacha20.keypair", not wrong, mod.path, fn.lineno,
+             extracted="; ".join(wrong[:3]) if wrong else "8-byte nonce -> 00000000 || nonce, 12-byte nonce unchanged, random 12-byte nonce reported back; (r, s) = the two halves of the first 32 key-stream bytes; other lengths refused",
+             expected="RFC 8439 2.6 poly1305_key_gen")
